@@ -34,6 +34,12 @@ pub fn batches(variant: usize) -> Vec<Batch> {
             vec![(0, vec![p().shift(0.5, 0.0).feat(&fa1(), 0.9), p().shift(2.5, 0.0).feat(&fb(), 0.85)]), (1, vec![p1().feat(&fa1(), 0.9), b.shift(1.0, 0.0)])],
             vec![(1, vec![p().shift(1.0, 0.5).feat(&fa(), 0.9), b.shift(2.0, 0.0)]), (0, vec![p().shift(1.0, 0.0).feat(&fa(), 0.9), p().shift(3.0, 0.0).feat(&fb(), 0.9)])],
         ],
+        // many scenes in one batch (more than the voting threads and their queues can hold at once), retrieved on
+        // the submitting thread after predict() has returned: 6 scenes for one voting thread, 9 for two
+        6 | 7 => {
+            let n = if variant == 6 { 6u64 } else { 9 };
+            vec![(0..n).map(|s| (s, vec![a.shift(s as f32, 0.0)])).collect(), (0..n).map(|s| (s, vec![p1().shift(s as f32, 0.0).feat(&fa1(), 0.8)])).collect()]
+        }
         // three scenes
         _ => vec![vec![(0, vec![a.clone()]), (1, vec![a.clone()]), (2, vec![b.clone()])], vec![(0, vec![p1()]), (2, vec![b.shift(1.0, 1.0)]), (1, vec![p1().shift(0.5, 0.0)])]],
     }
@@ -300,7 +306,7 @@ pub fn replay_batch(file: &serde_json::Value, prop: &str, judge: &dyn Fn(&RunOut
 
 pub fn run_check(tier: Tier) -> Report {
     let rep = Report::new("C06", tier);
-    rep.set_rule("BatchSort and BatchVisualSort x (distance shards, voting shards) in {(1,1),(1,2),(2,2)} (thorough: (1,3)) x batch sequences (2-3 batches over 2-3 scenes with 1-2 detections per scene, a scene absent from one batch; for BatchVisualSort also own-area thresholds with scenes of different own-area shares in one batch) x consumer discipline {same thread retrieves before the next submission; a second thread retrieves while the caller submits at once}, then drop; plus a fine tier (every synchronisation operation a decision point, 2 voting threads; two batches of two scenes retrieved before the next submission, deviation bound iterated to 2 quick / 4 thorough; three pipelined batches retrieved by consumer threads, bound 1 quick / 3 thorough): every interleaving of the predict loop, store workers, voting threads and consumer within the bound (window = whole run; bound = preemptions for the 1x1 / retrieve-then-submit configuration, otherwise departures from the deterministic default schedule i.e. delay bounding; bounds iterated 0,1,2,.. and the largest completed one reported per scenario); oracle: one result per submitted scene, one record per detection in order, per scene equal to the simple tracker up to an id bijection, no deadlock / step-cap. A third discipline that violates the proviso (submit a two-scene batch, then the next, before retrieving) must deadlock: built-in detection demo. states = executions.");
+    rep.set_rule("BatchSort and BatchVisualSort x (distance shards, voting shards) in {(1,1),(1,2),(2,2)} (thorough: (1,3)) x batch sequences (2-3 batches over 2-3 scenes with 1-2 detections per scene, a scene absent from one batch; batches of 6 / 9 scenes for 1 / 2 voting threads; for BatchVisualSort also own-area thresholds with scenes of different own-area shares in one batch) x consumer discipline {same thread retrieves before the next submission; a second thread retrieves while the caller submits at once}, then drop; plus a fine tier (every synchronisation operation a decision point, 2 voting threads; two batches of two scenes retrieved before the next submission, deviation bound iterated to 2 quick / 4 thorough; three pipelined batches retrieved by consumer threads, bound 1 quick / 3 thorough): every interleaving of the predict loop, store workers, voting threads and consumer within the bound (window = whole run; bound = preemptions for the 1x1 / retrieve-then-submit configuration, otherwise departures from the deterministic default schedule i.e. delay bounding; bounds iterated 0,1,2,.. and the largest completed one reported per scenario); oracle: one result per submitted scene, one record per detection in order, per scene equal to the simple tracker up to an id bijection, no deadlock / step-cap. A third discipline that violates the proviso (submit a two-scene batch, then the next, before retrieving) must deadlock: built-in detection demo. states = executions.");
     rep.assume("macro-step granularity (named points: worker dequeues a command, distances queued, scene dispatched, vote begin / before each store write / before the result is sent); preemptions inside lock-protected sections are not explored");
     let mut scen = BTreeMap::new();
     let mut total = 0u64;
@@ -324,6 +330,11 @@ pub fn run_check(tier: Tier) -> Report {
         for &(ds, vs) in &[(1usize, 1usize), (1, 2)] {
             scenarios.push((kind, ds, vs, 4, 1, Pos::Iou(0.3)));
         }
+    }
+    // many scenes per batch, retrieve-then-submit
+    for kind in [Kind::BatchSort, Kind::BatchVisualSort] {
+        scenarios.push((kind, 1, 1, 6, 0, Pos::Iou(0.3)));
+        scenarios.push((kind, 1, 2, 7, 0, Pos::Iou(0.3)));
     }
     // own-area thresholds on, scenes with different own-area shares in one batch (BatchVisualSort only)
     scenarios.push((Kind::BatchVisualSort, 1, 1, 5, 0, Pos::Iou(0.3)));
@@ -387,13 +398,13 @@ pub fn run_check(tier: Tier) -> Report {
         let bs = batches(variant);
         let reference = simple_reference(&cfg, &bs);
         // equal share of what is left of the wall budget; bounds are iterated 0, 1, 2, ... inside it
-        let budget = if tier == Tier::Quick { rep.budget().min(36.0) } else { rep.budget() };
+        let budget = if tier == Tier::Quick { rep.budget().min(42.0) } else { rep.budget() };
         let slice = ((budget - rep.elapsed()) / (n_scen - si) as f64).max(0.5);
         let slice_end = std::time::Instant::now() + std::time::Duration::from_secs_f64(slice);
         // preemption bounding (free switches when the running task blocks) is only tractable for the
         // smallest configuration; everywhere else the bound counts every departure from the default
         // schedule (delay bounding: keep the running task, else the lowest runnable id)
-        let delay_bounded = !(ds * vs == 1 && discipline == 0);
+        let delay_bounded = !(ds * vs == 1 && discipline == 0) || variant >= 5;
         let max_bound = if delay_bounded { tier.pick(3usize, 5usize) } else { tier.pick(2usize, 3usize) };
         let mut completed: Option<usize> = None;
         let mut per_bound = vec![];
